@@ -398,7 +398,7 @@ class ManagerModel:
                 if ev[1] == "present":
                     for g in GHOSTS:      # three VRUs close by announce themselves (real coder output)
                         with w:
-                            m.on_received_vam(V.through_coder(V.full_vam(g)))
+                            m.on_received_vam(make_rx("plain", None, g, "wire")[0])
                 lat, lon = V.pos_of(OWN)
                 draws = []
                 choice = ev[2] if len(ev) > 2 else 1
@@ -569,7 +569,7 @@ class ManagerModel:
                 c.mgr.on_received_vam(V.test_style_vam(other))
             c.step(part)
         with c:
-            c.mgr.on_received_vam(V.through_coder(V.full_vam(other)))
+            c.mgr.on_received_vam(make_rx("plain", None, other, "wire")[0])
         settle(c, "probe_leader_lost_not_standalone", others_speaking=True, silent_ticks=silent + need)
         # P2: break-up announcement by the leader, every reason, both forms
         for reason in ALL_BREAKUP_REASONS:
@@ -1157,6 +1157,9 @@ def run(ctx):
         runs.append([m0.apply(w0, e) for e in probe_hist] + [m0.canon(w0)])
     if runs[0] != runs[1]:
         raise HarnessError("replaying one history twice gave different observations")
+    for h in (probe_hist[:4], [("create", "present", 1), ("rx", "joinreq", "O", "dict"), ("breakup", CPM), ("rx", "info0", "O", "dict")]):
+        wx = X.rebuild(m0, h)
+        V.fast_copy_selfcheck(wx.mgr, wx.now)
 
     jobs_b = [(names, v, ctx.seed) for names in (("A", "B"), ("A", "B", "C")) for v in LOOP_VARIANTS]
     jobs_s = []
